@@ -66,6 +66,12 @@ func corpus() []*Case {
 			Policies: []Policy{{"Netspoc-v1", []Rule{rul("r1", "10.1.2.0/24", g("g1"), "")}}}},
 		&Config{Groups: []Group{grp("Netspoc-g1", "10.1.1.1", "10.1.1.2", "10.1.1.4")},
 			Policies: []Policy{{"Netspoc-v1", []Rule{rul("r1", "10.1.2.0/24", g("g1"), "")}}}}, nil)
+	// a device group without addresses (the state between POST remove of all and POST add) next to another group rule
+	add("empty-device-group",
+		&Config{Groups: []Group{{Id: "Netspoc-g0", ExprId: "id", RType: "IPAddressExpression", Addrs: nil}, grp("Netspoc-g1", "10.1.1.20")},
+			Policies: []Policy{{"Netspoc-v1", []Rule{rul("r1", g("g0"), "ANY", ""), rul("r2", g("g1"), "ANY", "")}}}},
+		&Config{Groups: []Group{grp("Netspoc-g0", "10.1.1.30"), grp("Netspoc-g1", "10.1.1.20")},
+			Policies: []Policy{{"Netspoc-v1", []Rule{rul("r1", g("g0"), "ANY", ""), rul("r2", g("g1"), "ANY", "")}}}}, nil)
 	// witness: one address replaced by another (all old addresses removed before the new ones are added)
 	add("replace-single-address",
 		&Config{Groups: []Group{grp("Netspoc-g0", "10.1.1.10")}, Policies: []Policy{{"Netspoc-v1", []Rule{rul("r1", g("g0"), "ANY", "")}}}},
